@@ -46,9 +46,30 @@ Theorem C02_internal_failure_rejected :
 Proof. exact cs_c02_internal_rejected. Qed.
 Print Assumptions C02_internal_failure_rejected.
 
+(* Later reads.  A contract reads nodes through StateContext.GetTrieNode, i.e. through the
+   transaction cache, the block cache shared by the block's transactions, the chain's state cache
+   and finally the trie; in the model all of that is the committed node map.  After ANY history the
+   committed nodes are the initial ones overwritten by the writes of the successfully applied calls
+   only ([cs_committed_writes]): nothing a chargeably failed, internally failed or rejected call
+   wrote while it ran can be seen by any later read.  The engine runs the real chain with a real
+   StateCache / per-block BlockCache, lets script contracts write cacheable values and then fail,
+   and compares every later GetTrieNode result with this. *)
+Theorem C02_later_reads_see_only_committed_writes :
+  forall cfg h st,
+    st_nodes (cs_run cfg st h) = cs_apply_writes (cs_committed_writes cfg st h) (st_nodes st).
+Proof. exact cs_c02_nodes_after_history. Qed.
+Print Assumptions C02_later_reads_see_only_committed_writes.
+
+Theorem C02_failed_call_invisible_to_reads :
+  forall cfg st round tx r k,
+    (forall ws trs sg evs out, r <> SCOk ws trs sg evs out) ->
+    cs_get k (st_nodes (cs_post st (cs_update_state cfg st round tx r))) = cs_get k (st_nodes st).
+Proof. exact cs_c02_failed_call_invisible. Qed.
+Print Assumptions C02_failed_call_invisible_to_reads.
+
 (* Non-vacuity: a failing call by a first-time sender with a fee, events on. *)
 Example C02_example :
-  let cfg := {| cfg_fee := true; cfg_events := true; cfg_miner := 0; cfg_strict_ids := false |} in
+  let cfg := {| cfg_fee := true; cfg_events := true; cfg_miner := 0; cfg_strict_ids := true |} in
   let A b n := {| ac_bal := b; ac_nonce := n; ac_txn := -1; ac_round := 0 |} in
   let st := {| st_accts := [(0, A 7 0); (1, A 50 0); (3, A 100 0)]; st_nodes := [(2, 5)] |} in
   let tx := {| tx_hash := 9; tx_type := TSC; tx_from := 3; tx_to := 1; tx_value := 40; tx_fee := 4; tx_nonce := 1 |} in
